@@ -68,7 +68,10 @@ def cases(tier, seed):
         out.append({"kind": "dynamic-churn", "from": j, "count": 12, "seed": seed})
     # the query is about the very text the priming class has just looked at: every pair of classes that spell the same structure
     # (the CIDAR / original-MoClo twins over the isoschizomers BbsI / BpiI ...) and a sample of the others
-    twins = [p for p in other if gen.class_by_name(p[0]).structure() == gen.class_by_name(p[1]).structure()]
+    # (asked of a child process: calling structure() here would put the parent - and through it every baseline - past a
+    # first use of every class)
+    twins = in_child(lambda: [p for p in other if gen.class_by_name(p[0]).structure() == gen.class_by_name(p[1]).structure()])
+    twins = [list(p) for p in twins]
     rest = [p for p in other if p not in twins]
     rng2 = gen.rng_for(seed, PROP, "same-text")
     rng2.shuffle(rest)
